@@ -180,7 +180,7 @@ def varUInt (k : Nat) : Codec where
       if len ≥ k ∨ r.length < 8 * len then none
       else some (.int (natOfBits (r.take (8 * len))), ⟨r.drop (8 * len), s.refs⟩)
   gen := do
-    let len ← gNat 0 (k - 1)
+    let len ← if (← gBool) then gNat 0 (min 3 (k - 1)) else gNat 0 (k - 1)
     return .int (← gUintVal (8 * len))
 
 def grams : Codec := varUInt 16
